@@ -1,11 +1,17 @@
 package main
 
 import (
+	"bytes"
 	"encoding/json"
 	"fmt"
 	"os"
 	"sort"
 	"strings"
+
+	"github.com/itchio/lake/pools/fspool"
+	"github.com/itchio/savior/seeksource"
+	"github.com/itchio/wharf/pwr/bowl"
+	"github.com/itchio/wharf/pwr/patcher"
 
 	"wv/internal/wvlib"
 )
@@ -91,6 +97,41 @@ func c01One(env *Env, m *wvlib.Model, c *PairCase, comps []Comp) {
 			env.R.Violate("output-unreadable", rerr.Error(), c)
 		} else if d := wvlib.DiffTrees(got, nw); d != "" {
 			env.R.Violate("tree-differs", comp.String()+": "+d, c)
+		}
+		// the other two ways a caller can apply a patch to a fresh place: the one-call helper, and a bowl that
+		// writes into a pool (files only: such a bowl knows nothing of directories and symlinks)
+		if (c.Seed+uint64(ci))%3 == 0 {
+			out2 := base + fmt.Sprintf("/outpf%d", ci)
+			err := func() (err error) {
+				defer func() {
+					if r := recover(); r != nil {
+						err = fmt.Errorf("PANIC %v", r)
+					}
+				}()
+				return patcher.PatchFresh(patcher.PatchFreshParams{PatchReader: seeksource.FromBytes(ev.Res.Patch), TargetDir: od, OutputDir: out2, Consumer: quietConsumer})
+			}()
+			if err != nil {
+				env.R.Violate("apply-error:PatchFresh", comp.String()+": "+err.Error(), c)
+			} else if got2, _ := wvlib.ReadTree(out2); wvlib.DiffTrees(got2, nw) != "" {
+				env.R.Violate("tree-differs:PatchFresh", comp.String()+": "+wvlib.DiffTrees(got2, nw), c)
+			}
+			os.RemoveAll(out2)
+			env.R.Count("applied-through-PatchFresh", 1)
+		}
+		if (c.Seed+uint64(ci))%3 == 1 {
+			out3 := base + fmt.Sprintf("/outpb%d", ci)
+			if err := applyPoolBowl(ev.Res.Patch, od, out3); err != nil {
+				env.R.Violate("apply-error:pool-bowl", comp.String()+": "+err.Error(), c)
+			} else {
+				for _, e := range nw.Files() {
+					if b, err := os.ReadFile(out3 + "/" + e.Path); err != nil || !bytes.Equal(b, e.Data) {
+						env.R.Violate("file-differs:pool-bowl", fmt.Sprintf("%s: %s differs from the new build (%v)", comp.String(), e.Path, err), c)
+						break
+					}
+				}
+			}
+			os.RemoveAll(out3)
+			env.R.Count("applied-through-pool-bowl", 1)
 		}
 		if ci == 0 && rerr == nil {
 			// model: the tree the fresh bowl makes of the new build (Prepare + every file written once), files the
@@ -275,4 +316,30 @@ func runC01(env *Env) {
 		}
 	})
 	stopModels(env, models)
+}
+
+// applyPoolBowl applies a patch through bowl.NewPoolBowl writing into a filesystem pool rooted at outDir.
+func applyPoolBowl(patch []byte, oldDir, outDir string) (err error) {
+	defer func() {
+		if r := recover(); r != nil {
+			err = fmt.Errorf("PANIC %v", r)
+		}
+	}()
+	p, err := patcher.New(seeksource.FromBytes(patch), quietConsumer)
+	if err != nil {
+		return err
+	}
+	if err := os.MkdirAll(outDir, 0o755); err != nil {
+		return err
+	}
+	targetPool := fspool.New(p.GetTargetContainer(), oldDir)
+	b, err := bowl.NewPoolBowl(bowl.PoolBowlParams{TargetContainer: p.GetTargetContainer(), SourceContainer: p.GetSourceContainer(),
+		TargetPool: targetPool, OutputPool: fspool.New(p.GetSourceContainer(), outDir)})
+	if err != nil {
+		return err
+	}
+	if err := p.Resume(nil, targetPool, b); err != nil {
+		return err
+	}
+	return b.Commit()
 }
